@@ -12,7 +12,7 @@ import modelrun
 from ref import oracle
 from props import rebuild_common as rc
 
-GEN_FILES = []
+GEN_FILES = ["GenEffects.v"]
 EXTRA_TARGETS = ["Extract/ExtractRebuild.vo"]
 AREAS = ["rebuild"]
 RULE = ("model tie: (1) utils.copypath run on small real filesystems built in a scratch directory (1-4 path elements over the names "
@@ -363,6 +363,7 @@ def run(ctx, model_ok):
     copypath_tie(ctx, model_ok)
     rc.match_v1_tie(ctx, model_ok)
     rc.match_v2_tie(ctx, model_ok)
+    rc.parts_tie(ctx, model_ok)
     e2e(ctx)
 
 
